@@ -18,7 +18,9 @@ RULE = (
     "database / file / redis: cached SQLite, journal file with both locks, journal redis): a "
     "queue of 1-4 trials put there by enqueue_trial(params, user_attrs) or add_trial(WAITING), "
     "optionally after deleting and re-creating the study under the same name and with a worker "
-    "that already owns a RUNNING trial, and 2-3 workers running 1-3 actions each (ask() followed "
+    "that already owns a RUNNING trial; the caller overwrites its own params / user_attrs dicts "
+    "right after enqueueing; the workers sample with RandomSampler or with multivariate TPE whose "
+    "relative search space contains the queued names; and 2-3 workers running 1-3 actions each (ask() followed "
     "by suggesting every parameter, enqueue another trial, tell a claimed trial). A "
     "deterministic scheduler owns the interleaving (yield point = every source line of the "
     "storage layer and of study.py, every system call of the journal file backend, every lock "
@@ -55,6 +57,9 @@ def case_scenario(draw: Any) -> dict[str, Any]:
         "queue": queue,
         "recreate": draw(st.integers(0, 3)) == 0,
         "owner_has_running": draw(st.integers(0, 2)) == 0,
+        # the workers' sampler: independent sampling only, or a sampler whose relative search space
+        # contains the queued parameter names (multivariate TPE after two completed trials)
+        "sampler": draw(st.sampled_from(["random", "random", "tpe_mv"])),
         "workers": workers,
         "multi": draw(st.lists(st.lists(st.tuples(st.floats(0, 1), st.integers(0, 1)).map(list), min_size=2, max_size=3), max_size=4)),
         "salt": draw(st.integers(0, 1000)),
@@ -88,21 +93,40 @@ def execute(case: dict[str, Any], preempt: dict[int, int], tmpdir: str, ctx: Ctx
             old.ask()
             optuna.delete_study(study_name="q", storage=s0)
         st0 = optuna.create_study(storage=s0, study_name="q", sampler=optuna.samplers.RandomSampler(seed=0))
+        if case.get("sampler") == "tpe_mv":
+            for j in range(2):
+                st0.add_trial(
+                    optuna.trial.create_trial(
+                        params={"x": 50.0 + j, "c": "a", "k": 50 + j},
+                        distributions={"x": optuna.distributions.FloatDistribution(0, 100), "c": optuna.distributions.CategoricalDistribution(["a", "b", None]), "k": optuna.distributions.IntDistribution(0, 100)},
+                        value=float(j),
+                    )
+                )
         if case["owner_has_running"]:
             st0.ask()  # a RUNNING trial exists (and, on the journal, is owned by the set-up worker)
         queued: dict[int, dict[str, Any]] = {}  # trial number -> fixed params
 
         def put(study: Any, kind: str, i: int) -> None:
             fp = fixed_params(i)
+            ua = {"n": i}
             if kind == "enqueue":
-                study.enqueue_trial(fp, user_attrs={"n": i})
+                study.enqueue_trial(fp, user_attrs=ua)
             else:
-                study.add_trial(optuna.trial.create_trial(state=TrialState.WAITING, system_attrs={"fixed_params": fp}, user_attrs={"n": i}))
+                study.add_trial(optuna.trial.create_trial(state=TrialState.WAITING, system_attrs={"fixed_params": fp}, user_attrs=ua))
+            # the caller goes on using its dicts (a sweep built by updating one dict in a loop):
+            # what was enqueued is the value at enqueue time
+            fp.update(x=77.0, c="b" if fp["c"] != "b" else "a", k=77)
+            ua["n"] = -1
 
         for i, kind in enumerate(case["queue"]):
             put(st0, kind, i)
         stores = env.worker_storages()
-        studies = [optuna.load_study(study_name="q", storage=s, sampler=optuna.samplers.RandomSampler(seed=10 + i)) for i, s in enumerate(stores)]
+        def sampler(i: int) -> Any:
+            if case.get("sampler") == "tpe_mv":
+                return optuna.samplers.TPESampler(multivariate=True, n_startup_trials=1, seed=10 + i)
+            return optuna.samplers.RandomSampler(seed=10 + i)
+
+        studies = [optuna.load_study(study_name="q", storage=s, sampler=sampler(i)) for i, s in enumerate(stores)]
         asks: list[Any] = []  # (worker, trial_id, number, user_attrs n, suggested, (t0, t1))
         errors: list[Any] = []
         spans: list[tuple[int, int, str]] = []
@@ -154,6 +178,8 @@ def execute(case: dict[str, Any], preempt: dict[int, int], tmpdir: str, ctx: Ctx
         for (w, tid, num, n, got, _) in asks:
             t = by_num[num]
             fp = t.system_attrs.get("fixed_params")
+            if n == -1 or t.user_attrs.get("n") == -1 or (fp is not None and (fp.get("x") == 77.0 or fp.get("k") == 77)):
+                raise Violation("queued-trial-changed-after-enqueue", f"{sw}: trial number {num} (worker {w}): the caller changed its own params / user_attrs dicts after enqueueing (x=77.0, k=77, n=-1) and the queued trial followed: stored fixed_params {fp}, user_attrs {t.user_attrs}, suggest returned {got}", None)
             if fp is not None:
                 for k_, v in fp.items():
                     if not (type(got[k_]) is type(v) and got[k_] == v):
@@ -183,7 +209,7 @@ def execute(case: dict[str, Any], preempt: dict[int, int], tmpdir: str, ctx: Ctx
 
 
 def run_scenario(case: dict[str, Any], ctx: Ctx) -> None:
-    scen = {k: case[k] for k in ("layout", "queue", "recreate", "owner_has_running", "workers")}
+    scen = {k: case.get(k) for k in ("layout", "queue", "recreate", "owner_has_running", "workers", "sampler")}
 
     def one(preempt: dict[int, int]) -> int:
         try:
